@@ -173,6 +173,8 @@ pub struct EncryptedKeyStorageManager {
     argon2_config: Argon2Config,
     /// In-memory cache of decrypted keys
     key_cache: Arc<RwLock<HashMap<String, SecureMemory>>>,
+    /// Per-process random key binding each cache entry to the password that unlocked it
+    cache_binding_key: [u8; 32],
     // Removed insecure password cache that bypassed password validation
     /// Background key derivation tasks
     _background_tasks: Arc<AsyncRwLock<HashMap<String, tokio::task::JoinHandle<Result<()>>>>>,
@@ -329,10 +331,14 @@ impl EncryptedKeyStorageManager {
             std::fs::create_dir_all(parent).map_err(P2PError::Io)?;
         }
 
+        let mut cache_binding_key = [0u8; 32];
+        RngCore::fill_bytes(&mut thread_rng(), &mut cache_binding_key);
+
         Ok(Self {
             storage_path,
             argon2_config,
             key_cache: Arc::new(RwLock::new(HashMap::new())),
+            cache_binding_key,
             _background_tasks: Arc::new(AsyncRwLock::new(HashMap::new())),
             stats: Arc::new(Mutex::new(StorageStats::default())),
             _security_level: security_level,
@@ -374,6 +380,11 @@ impl EncryptedKeyStorageManager {
         self.encrypt_and_store(password, &salt, &nonce, &key_data)
             .await?;
 
+        // A (re-)initialised store is empty: nothing cached from a previous store may outlive it
+        if let Ok(mut cache) = self.key_cache.write() {
+            cache.clear();
+        }
+
         // Update statistics
         {
             let mut stats = self.stats.lock().map_err(|_| {
@@ -395,6 +406,7 @@ impl EncryptedKeyStorageManager {
         password: &SecureString,
     ) -> Result<()> {
         let start_time = Instant::now();
+        let cache_key = self.cache_key(seed_id, password)?;
 
         // Load existing data
         let mut key_data = self.load_and_decrypt(password).await?;
@@ -432,7 +444,7 @@ impl EncryptedKeyStorageManager {
                 ))
             })?;
             cache.insert(
-                seed_id.to_string(),
+                cache_key,
                 SecureMemory::from_slice(master_seed.seed_material())?,
             );
         }
@@ -460,14 +472,15 @@ impl EncryptedKeyStorageManager {
     ) -> Result<MasterSeed> {
         let start_time = Instant::now();
 
-        // Check cache first
+        // Check cache first: an entry is only visible under the password that unlocked it
+        let cache_key = self.cache_key(seed_id, password)?;
         {
             let cache = self.key_cache.read().map_err(|_| {
                 P2PError::Storage(StorageError::LockPoisoned(
                     "read lock failed".to_string().into(),
                 ))
             })?;
-            if let Some(cached_seed) = cache.get(seed_id) {
+            if let Some(cached_seed) = cache.get(&cache_key) {
                 let mut stats = self.stats.lock().map_err(|_| {
                     P2PError::Storage(StorageError::LockPoisoned(
                         "mutex lock failed".to_string().into(),
@@ -496,7 +509,7 @@ impl EncryptedKeyStorageManager {
                     "write lock failed".to_string().into(),
                 ))
             })?;
-            cache.insert(seed_id.to_string(), SecureMemory::from_slice(seed_bytes)?);
+            cache.insert(cache_key, SecureMemory::from_slice(seed_bytes)?);
         }
 
         // Update statistics
@@ -563,6 +576,13 @@ impl EncryptedKeyStorageManager {
         }
 
         Ok(())
+    }
+
+    /// Cache key of a seed: the seed id bound to the password that opened the store for it, so a
+    /// cached seed is never served to a caller presenting another password
+    fn cache_key(&self, seed_id: &str, password: &SecureString) -> Result<String> {
+        let tag = blake3::keyed_hash(&self.cache_binding_key, password.as_str()?.as_bytes());
+        Ok(format!("{}:{}", tag.to_hex(), seed_id))
     }
 
     /// Validate password strength
